@@ -118,13 +118,30 @@ theorem nne_copyChunk : ∀ (fuel : Nat) (s : S) (k n cap : Nat), NoNewEof s (co
 theorem nne_setW (s : S) (w : W) : NoNewEof s (setW s w) := NoNewEof.of_drecs rfl
 theorem nne_setLimit (s : S) (n : Nat) : NoNewEof s (setLimit s n) := NoNewEof.of_drecs rfl
 
-theorem nne_bdatFail (s : S) (left : Nat) (err : BRes) : NoNewEof s (bdatFail s left err).1 := by
+theorem nne_writeLmtpStatuses (sts : List (Bytes × BRes)) : ∀ (s : S), NoNewEof s (writeLmtpStatuses s sts) := by
+  induction sts with
+  | nil => intro s; exact NoNewEof.rfl' _
+  | cons x xs ih =>
+    intro s
+    simp only [writeLmtpStatuses, List.foldl_cons] at ih ⊢
+    exact (nne_replyB _ _ _ _).trans (ih _)
+
+theorem nne_bdatFailReplies (s : S) (k : Nat) (last : Bool) (err : BRes) : NoNewEof s (bdatFailReplies s k last err) := by
+  unfold bdatFailReplies
+  split
+  · simp only []
+    split
+    · exact nne_writeLmtpStatuses _ _
+    · split <;> exact nne_writeLmtpStatuses _ _
+  · exact nne_replyB _ _ _ _
+
+theorem nne_bdatFail (s : S) (k left : Nat) (last : Bool) (err : BRes) : NoNewEof s (bdatFail s k left last err).1 := by
   unfold bdatFail
   simp only []
   have h1 := nne_setW s (discardN (wireFuel s.w) s.w left)
   generalize setW s (discardN (wireFuel s.w) s.w left) = s1 at h1 ⊢
-  have h2 := nne_replyB s1 (Reply.dataStatus err).1 (Reply.dataStatus err).2.1 [(Reply.dataStatus err).2.2]
-  generalize replyB s1 (Reply.dataStatus err).1 (Reply.dataStatus err).2.1 [(Reply.dataStatus err).2.2] = s2 at h2 ⊢
+  have h2 := nne_bdatFailReplies s1 k last err
+  generalize bdatFailReplies s1 k last err = s2 at h2 ⊢
   have h3 : NoNewEof s2 (if err == errPanic then closeConn s2 else s2) := by
     split
     · exact nne_closeConn _
@@ -181,10 +198,10 @@ theorem bdatAfterCopy_eof (s : S) (k size left : Nat) (last : Bool) (ce : CopyEn
     (h : eofAt (bdatAfterCopy s k size left last ce).1 j) : eofAt s j ∨ (last = true ∧ ce = .done) := by
   unfold bdatAfterCopy at h
   split at h
-  · exact Or.inl (nne_bdatFail _ _ _ j h)
-  · exact Or.inl (nne_bdatFail _ _ _ j h)
+  · exact Or.inl (nne_bdatFail _ _ _ _ _ j h)
+  · exact Or.inl (nne_bdatFail _ _ _ _ _ j h)
   · simp only [] at h
-    split at h <;> exact Or.inl (nne_bdatFail _ _ _ j h)
+    split at h <;> exact Or.inl (nne_bdatFail _ _ _ _ _ j h)
   · unfold bdatDone at h
     simp only [] at h
     cases last with
